@@ -8,6 +8,7 @@ import (
 	"time"
 
 	"github.com/kercylan98/vivid"
+	"github.com/kercylan98/vivid/internal/chain"
 	"github.com/kercylan98/vivid/internal/scheduler"
 )
 
@@ -22,8 +23,11 @@ func VH_C07_status_table() {
 	w := vhNewWorld()
 	sys := w.sys
 	close(sys.guardClosedSignal) // the root is reported terminated at once
+	sys.Context = nil            // Start() spawns the real guard context itself
+	sys.options.Context = context.Background()
+	sys.cancel = func() {}
 	status := ready
-	n := 1 + vrtChoose(3)
+	n := 1 + vrtChoose(int(vrtParam("calls", 3)))
 	for i := 0; i < n; i++ {
 		if vrtBool() {
 			// Stop
@@ -41,28 +45,20 @@ func VH_C07_status_table() {
 				vrtReach("stop-again")
 			}
 		} else {
-			// Start: only the state transition (the real chain needs the real runtime)
-			var err error
-			func() {
-				sys.statusLock.Lock()
-				defer sys.statusLock.Unlock()
-				switch sys.status {
-				case start:
-					err = vivid.ErrorActorSystemAlreadyStarted
-				case stop:
-					err = vivid.ErrorActorSystemAlreadyStopped
-				default:
-					sys.status = start
-				}
-			}()
+			// the REAL Start(): status closure, start chain (spawns the real guard
+			// context into the recording world), guardian goroutine (parked on the
+			// never-cancelled context)
+			err := sys.Start()
 			switch status {
 			case ready:
 				vrtAssert(err == nil, "first-start-succeeds")
 				status = start
 			case start:
 				vrtAssert(errors.Is(err, vivid.ErrorActorSystemAlreadyStarted), "second-start-is-already-started")
+				vrtReach("start-again")
 			case stop:
 				vrtAssert(errors.Is(err, vivid.ErrorActorSystemAlreadyStopped), "start-after-stop-is-already-stopped")
+				vrtReach("start-after-stop")
 			}
 		}
 		vrtAssert(sys.status == status, "status-follows-one-way-machine")
@@ -74,6 +70,10 @@ type vhC07 struct {
 	stopADone, stopBDone int8
 	stopAErr, stopBErr   int8 // 0 nil, 1 already-stopped, 2 stop-failed(timeout), 3 other
 	cancelled            int8
+	startDone, startErr  int8 // concurrent Start(): 0 nil, 4 already-started, 1 already-stopped, 3 other
+	chainRuns            int8 // how often a start chain ran after the initial Start
+	rootKills            int8 // Kill(root) issued by stop
+	schedStops           int8
 }
 
 func vhErrCode(err error) int8 {
@@ -84,6 +84,8 @@ func vhErrCode(err error) int8 {
 		return 1
 	case errors.Is(err, vivid.ErrorActorSystemStopFailed):
 		return 2
+	case errors.Is(err, vivid.ErrorActorSystemAlreadyStarted):
+		return 4
 	}
 	return 3
 }
@@ -120,8 +122,14 @@ func VS_C07_stop_protocol() {
 		}
 	}
 	vrtRedirect("time.After", func(d time.Duration) <-chan time.Time { return vhC07Timeout })
-	vrtRedirect("(*github.com/kercylan98/vivid/internal/actor.Context).Kill", func(c *Context, ref vivid.ActorRef, poison bool, reason ...string) {})
-	vrtRedirect("(*github.com/kercylan98/vivid/internal/scheduler.Scheduler).Stop", scheduler.VrtNoopStop)
+	vrtRedirect("(*github.com/kercylan98/vivid/internal/actor.Context).Kill", func(c *Context, ref vivid.ActorRef, poison bool, reason ...string) {
+		vrtVisible("kill-root")
+		g.rootKills++
+	})
+	vrtRedirect("(*github.com/kercylan98/vivid/internal/scheduler.Scheduler).Stop", func(sc *scheduler.Scheduler) {
+		vrtVisible("scheduler-stop")
+		g.schedStops++
+	})
 	sys.Context = nil // Start() spawns the real guard context itself
 	err := sys.Start()
 	vrtAssert(err == nil, "start-ok")
@@ -130,9 +138,33 @@ func VS_C07_stop_protocol() {
 	vrtSharedChan(vhC07Done)
 	vrtSharedChan(vhC07Timeout)
 	vrtShared(&g.stopADone, &g.stopBDone, &g.stopAErr, &g.stopBErr, &g.cancelled)
-
-	vrtThread("stopA", func() { g.stopAErr = vhErrCode(sys.Stop()); g.stopADone = 1 })
-	vrtThread("stopB", func() { g.stopBErr = vhErrCode(sys.Stop()); g.stopBDone = 1 })
+	vrtShared(&g.startDone, &g.startErr, &g.chainRuns, &g.rootKills, &g.schedStops)
+	// a Start() that gets past the status check (it must not) runs this instead of
+	// the real start chain
+	vrtRedirect("(*github.com/kercylan98/vivid/internal/chain.Chains).Run", func(c *chain.Chains) error {
+		vrtVisible("start-chain-runs-again")
+		g.chainRuns++
+		return nil
+	})
+	withStart := vrtParam("start", 0) == 1
+	noStop := vrtParam("nostop", 0) == 1
+	if !noStop {
+		vrtThread("stopA", func() { g.stopAErr = vhErrCode(sys.Stop()); g.stopADone = 1 })
+	} else {
+		g.stopADone, g.stopAErr = 1, 1
+	}
+	if withStart {
+		// the second caller calls Start() instead of Stop(): it must be told
+		// already-started or already-stopped, whatever the interleaving
+		g.stopBDone, g.stopBErr = 1, 1
+		vrtThread("startAgain", func() { g.startErr = vhErrCode(sys.Start()); g.startDone = 1 })
+	} else if !noStop {
+		g.startDone, g.startErr = 1, 1
+		vrtThread("stopB", func() { g.stopBErr = vhErrCode(sys.Stop()); g.stopBDone = 1 })
+	} else {
+		g.startDone, g.startErr = 1, 1
+		g.stopBDone, g.stopBErr = 1, 1
+	}
 	vrtThread("root-terminates", func() { close(sys.guardClosedSignal) })
 	if vrtParam("timeout", 0) == 1 {
 		vrtThread("stop-timeout-fires", func() { close(vhC07Timeout) })
@@ -142,6 +174,19 @@ func VS_C07_stop_protocol() {
 	}
 
 	vrtFinal("every-stop-call-returns", func() bool { return g.stopADone == 1 && g.stopBDone == 1 })
+	vrtFinal("concurrent-start-returns", func() bool { return g.startDone == 1 })
+	vrtFinal("concurrent-start-is-rejected-with-already-started-or-already-stopped", func() bool { return g.startErr == 1 || g.startErr == 4 })
+	vrtSafety("start-chain-never-runs-twice", func() bool { return g.chainRuns == 0 })
+	vrtSafety("root-killed-at-most-once", func() bool { return g.rootKills <= 1 })
+	// Stop (or the context cancellation) kills the root exactly once and, unless
+	// the stop timed out, stops the scheduler exactly once
+	vrtFinal("shutdown-kills-the-root-exactly-once", func() bool { return g.rootKills == 1 })
+	vrtFinal("scheduler-stopped-once-unless-stop-timed-out", func() bool {
+		if g.stopAErr == 2 || g.stopBErr == 2 {
+			return g.schedStops <= 1
+		}
+		return g.schedStops == 1 || (vrtParam("timeout", 0) == 1 && g.schedStops == 0)
+	})
 	// the winner is the one call that performs the shutdown; with an external
 	// context cancellation the guardian goroutine may be that one, in which case
 	// both callers are told already-stopped
@@ -153,6 +198,9 @@ func VS_C07_stop_protocol() {
 		}
 		if a == 1 && b == 1 {
 			return external
+		}
+		if withStart {
+			return a == 0 || a == 2
 		}
 		return a == 1 || b == 1
 	})
